@@ -174,7 +174,7 @@ func run(c *mon.Ctx) {
 	c.Assume("stream_id 0xBC (program_stream_map) is exercised for totality only; AlignedPUSI is asserted only for stream ids that carry the optional header and complete headers (>= 9 bytes)")
 	c.Floor("aligned_pusi.true", 500)
 	c.Floor("aligned_pusi.false", 500)
-	per := c.N(40, 1500)
+	per := c.N(40, 60000)
 	c.Exhaustive("all 256 stream ids x 3 PTS_DTS_flags values", 768)
 	c.Stream("by-stream-id", 256, func(sid int, r *gen.Rand) {
 		for k := 0; k < per; k++ {
@@ -191,7 +191,7 @@ func run(c *mon.Ctx) {
 		}
 	})
 	// short payloads: 0..5 bytes with a start-code prefix as far as it fits
-	c.Stream("short-payloads", c.N(3000, 100000), func(i int, r *gen.Rand) {
+	c.Stream("short-payloads", c.N(3000, 3000000), func(i int, r *gen.Rand) {
 		n := r.Intn(6)
 		pay := []byte{0, 0, 1, byte(r.Intn(256)), byte(r.Intn(256))}[:min(n, 5)]
 		if n > len(pay) {
